@@ -20,6 +20,30 @@ fn main() {
     let tier = match arg_value(&args, "--tier").as_deref() { Some("thorough") => Tier::Thorough, _ => Tier::Quick };
     let seed: u64 = arg_value(&args, "--seed").or_else(|| std::env::var("VERIF_SEED").ok()).and_then(|s| s.trim().parse::<i128>().ok()).map(|v| v as u64).unwrap_or(1);
     match args[1].as_str() {
+        "cold-burst" => {
+            // rwsv cold-burst <docroot> <n> <escaped request> [<escaped request> ...]: a process that has not served anything yet handles n requests
+            // on n named threads released by one barrier (request i = the (i mod k)-th given); prints one escaped response per line.
+            let root = args.get(2).expect("docroot").clone();
+            let n: usize = args.get(3).and_then(|s| s.parse().ok()).unwrap_or(2);
+            let reqs: Vec<Vec<u8>> = args[4..].iter().map(|a| fw::util::unescape_bytes(a)).collect();
+            fw::install_panic_hook();
+            fw::inproc::init_env();
+            std::env::set_current_dir(&root).expect("chdir");
+            let saved = fw::redirect_stdio_to_devnull();
+            let barrier = std::sync::Arc::new(std::sync::Barrier::new(n));
+            let mut hs = vec![];
+            for i in 0..n {
+                let b = barrier.clone();
+                let r = reqs[i % reqs.len().max(1)].clone();
+                hs.push(std::thread::Builder::new().name(format!("{}", i)).spawn(move || { b.wait(); fw::inproc::serve(&r, Default::default(), 10000, fw::inproc::AppKind::Real, fw::inproc::Entry::Process).out }).unwrap());
+            }
+            let outs: Vec<Vec<u8>> = hs.into_iter().map(|h| h.join().unwrap_or_default()).collect();
+            // and one more, alone, afterwards
+            let after = fw::inproc::serve(&reqs[0], Default::default(), 10000, fw::inproc::AppKind::Real, fw::inproc::Entry::Process).out;
+            use std::io::Write;
+            let mut out = saved.unwrap();
+            for o in outs.iter().chain(std::iter::once(&after)) { writeln!(out, "{}", fw::util::escape_bytes(o)).ok(); }
+        }
         "probe" => {
             // rwsv probe <docroot> <escaped request bytes> [legacy]: run one request in-process and print the response
             let root = args.get(2).expect("docroot");
